@@ -89,6 +89,11 @@ func (c *compiler) updateEnterBlock(enter *enterBlock) {
 	stashSize, stackSize := 0, 0
 	if scope.dynLookup {
 		stashSize = len(scope.bindings)
+		if stashSize == 0 {
+			// A dynamic scope is always counted as a stash level by the code that resolves outer bindings,
+			// so it must exist at run time even if it declares nothing (e.g. 'let [] = x;').
+			stashSize = 1
+		}
 		enter.names = scope.makeNamesMap()
 	} else {
 		for _, b := range scope.bindings {
